@@ -58,7 +58,8 @@ StrOps ==
   \cup {Slice2(x, "s", ij[1], ij[2]) : x \in {"s", "t"}, ij \in {<<1, 2>>, <<0, 0>>, <<2, 1>>, <<0, 4>>, <<-1, 1>>, <<0, 3>>}}
   \cup {Slice3("t", "s", 0, 1, 2), O1("len", "s"), O1("len", "t"), InO("s", StrV("x")), O1("callwrite", "s")}
 TypedOps ==
-  {O("tmake", "ta", "", IntV(2), NilV, NilV, NilV, "", <<>>), Alias("b", "ta")}
+  {O("tmake", "ta", "", IntV(2), NilV, NilV, NilV, "", <<>>), Alias("b", "ta"), O1("litmix", "a"), O1("lit3", "a"), Slice2("b", "ta", 0, 1), Read("ta", IntV(1))}
+  \cup {O("concat", "c", y, NilV, NilV, StrV("a"), NilV, "", <<>>) : y \in {"ta", "b"}}
   \cup {Write("ta", IntV(i), v) : i \in {0, 2, 3}, v \in {IntV(5), StrV("s"), Flt19}}
   \cup {AppendO("ta", v) : v \in {IntV(5), StrV("s"), Flt19}} \cup {Read("ta", IntV(0)), Read("ta", IntV(2)), Read("b", IntV(0)), O1("len", "ta")}
   \cup {InO("ta", Flt19), InO("ta", IntV(5)), InO("ta", IntV(1)), InO("ta", StrV("s")), InO("ta", NilV)}
